@@ -18,7 +18,46 @@ type State struct {
 }
 
 func (x *Exec) newState() *State {
-	return &State{pc: "true", vars: map[types.Object]Val{}, heap: map[string]string{}, next: x.next0, ghost: map[string]Val{}}
+	st := &State{pc: "true", vars: map[types.Object]Val{}, heap: map[string]string{}, next: x.next0, ghost: map[string]Val{}}
+	// ghost call counters: every counter name any contract declares starts at an arbitrary
+	// non-negative value (all of them are present from the start so that loop heads havoc them)
+	for _, n := range x.eng.countNames() {
+		c := "cnt0_" + sanitize(n)
+		if !x.cntDeclared[c] {
+			if x.cntDeclared == nil {
+				x.cntDeclared = map[string]bool{}
+			}
+			x.cntDeclared[c] = true
+			x.u.decls = append(x.u.decls, "(declare-const "+c+" Int)")
+			x.u.fact("(>= " + c + " 0)")
+		}
+		st.ghost["count:"+n] = Val{T: c, S: "Int"}
+	}
+	return st
+}
+
+func (x *Exec) countInc(st *State, name string) {
+	cur, ok := st.ghost["count:"+name]
+	if !ok {
+		panic("ghost counter " + name + " not registered")
+	}
+	st.ghost["count:"+name] = x.bind(Val{T: "(+ " + cur.T + " 1)", S: "Int"}, "cnt")
+}
+
+func (e *Engine) countNames() []string {
+	if e.cntNames == nil {
+		m := map[string]bool{"cache.Set": true}
+		for _, c := range e.contracts {
+			if c.Counts != "" {
+				m[c.Counts] = true
+			}
+		}
+		for k := range m {
+			e.cntNames = append(e.cntNames, k)
+		}
+		sort.Strings(e.cntNames)
+	}
+	return e.cntNames
 }
 
 func (s *State) clone() *State {
